@@ -863,7 +863,8 @@ def site_bodies(repo):
     return out, names, raw
 
 
-def emit_bodies(out, names, outdir):
+def emit_bodies(out, names, outdir, raw=None):
+    raw = raw or {}
     lines = ['import Uom.Model.Body', '/-! GENERATED by translate/translate.py (site `bodies`) — do not edit -/',
              'namespace Uom.Gen.Body', 'open Uom.Body', '']
     for key, nparams, lean in out:
@@ -884,11 +885,24 @@ def emit_bodies(out, names, outdir):
         lines.append('def %s : Nat := %d' % (base, code))
     lines.append('')
     lines.append('end Uom.Gen.Body')
-    return write_if_changed(os.path.join(outdir, 'Bodies.lean'), '\n'.join(lines) + '\n')
+    changed = write_if_changed(os.path.join(outdir, 'Bodies.lean'), '\n'.join(lines) + '\n')
+    # signatures (output dimension, kind bounds, per-exponent bounds) of the same functions
+    import bodies
+    sl = ['import Uom.Model.Sig', '/-! GENERATED by translate/translate.py (site `bodies`, signatures) — do not edit -/',
+          'namespace Uom.Gen.Sig', 'open Uom.Body Uom.Sig', '']
+    for key, _n, _l in out:
+        b = raw.get(key)
+        if b is None or not (key.startswith('system_') or key.startswith('si_')):
+            continue
+        sl.append('def %s : Sig := %s' % (key, bodies.parse_sig(b.get('hdr', ''), b.get('impl_out', ''), b.get('sig', ''), MARKERS, b.get('ptypes', ()))))
+    sl.append('')
+    sl.append('end Uom.Gen.Sig')
+    changed += write_if_changed(os.path.join(outdir, 'Sigs.lean'), '\n'.join(sl) + '\n')
+    return changed
 
 
 def main():
-    verif = os.path.dirname(os.path.dirname(os.path.abspath(__file__)))
+    verif = os.environ.get('VERIF_DIR') or os.path.dirname(os.path.dirname(os.path.abspath(__file__)))
     repo = os.environ.get('UOM_REPO', '/repo')
     try:
         t = translate(repo)
@@ -924,7 +938,7 @@ def main():
     except SiteError as ex:
         print('translator-broken:%s %s' % (ex.site, ex.msg))
         return 3
-    changed += emit_bodies(bout, bnames, os.path.join(verif, 'lean', 'Uom', 'Gen'))
+    changed += emit_bodies(bout, bnames, os.path.join(verif, 'lean', 'Uom', 'Gen'), braw)
     write_if_changed(os.path.join(verif, 'build', 'bodies.json'), json.dumps(braw, ensure_ascii=False, indent=0))
     t['bodies'] = len(bout)
     t['usr'] = dict(quantities=len(usr['quantities']), units=sum(len(q['units']) for q in usr['quantities']), added=len(usr['added']))
